@@ -301,6 +301,42 @@ func (r *replayer) dispatch(line []byte) error {
 			return err
 		}
 		r.evalCase(c)
+	case "C05OV":
+		var c OvCase
+		if err := json.Unmarshal(line, &c); err != nil {
+			return err
+		}
+		r.ovCase(c)
+	case "C14":
+		var c Case
+		if err := json.Unmarshal(line, &c); err != nil {
+			return err
+		}
+		r.promoCase(c)
+	case "C02", "C15":
+		var c Case
+		if err := json.Unmarshal(line, &c); err != nil {
+			return err
+		}
+		r.pairCase(c, r.prop == "C02")
+	case "C18":
+		var c LawCase
+		if err := json.Unmarshal(line, &c); err != nil {
+			return err
+		}
+		r.lawCase(c)
+	case "C06":
+		var c Case
+		if err := json.Unmarshal(line, &c); err != nil {
+			return err
+		}
+		r.budgetCase(c)
+	case "C07":
+		var c HCase
+		if err := json.Unmarshal(line, &c); err != nil {
+			return err
+		}
+		r.histCase(c)
 	case "PROG":
 		var c ProgCase
 		if err := json.Unmarshal(line, &c); err != nil {
